@@ -64,6 +64,8 @@ bool exec_arith(ExecCtx &c) {
             Fn fx = fn_of(x), fy = fn_of(y);
 #endif
             auto finish = [&](auto &res) {
+              c08_note(op.kind == OP_P_ADD ? E_ADD : op.kind == OP_P_SUB ? E_SUB : E_MUL, x.getSupport().getGrid(),
+                       y.getSupport().getGrid());
               c08_check(c, !same, true, distinct, site);
               c03_must_succeed(c, same, site);
               if (!res) return;
@@ -147,10 +149,12 @@ bool exec_arith(ExecCtx &c) {
                 } catch (const std::exception &) {
                 }
               }
+              int dk = grid_diff_kind(x.getSupport().getGrid(), y.getSupport().getGrid());
               libcall(out, [&] {
                 if (op.kind == OP_P_IADD) x += y;
                 else x -= y;
               });
+              probe(PR_MATRIX0 + (op.kind == OP_P_IADD ? E_IADD : E_ISUB) * D_N + dk);
               c08_check(c, !same, true, distinct, site);
               c03_must_succeed(c, same, site);
               if (out.status == ST_OK) {
@@ -266,6 +270,7 @@ bool exec_arith(ExecCtx &c) {
               sim::Rng r(sim::mix3(op.d, 0x11c0, 0));
               for (size_t i = 0; i < sv.size(); i++) cs.push_back(scalar_choice(r.below(12)));
               for (size_t i = 1; i < sv.size(); i++) {
+                c08_note(E_LINCOMB, sv[0].getSupport().getGrid(), sv[i].getSupport().getGrid());
                 if (!grids_logically_equal(sv[0].getSupport().getGrid(), sv[i].getSupport().getGrid())) differ = true;
                 else if (!same_grid_object(sv[0], sv[i])) distinct = true;
               }
